@@ -381,7 +381,7 @@ pub fn check_bad(c: &Bad, rec: &mut Rec) -> Result<(), Violation> {
 }
 
 fn strat_cell() -> BoxedStrategy<CellCase> {
-  (gens::depth_and_cell(), 1u32..=5).prop_map(|((depth, cell), nseg)| CellCase { depth, cell, nseg }).boxed()
+  (gens::depth_and_cell(), prop_oneof![3 => 1u32..=5, 2 => 6u32..=24, 1 => prop::sample::select(vec![31u32, 32, 33, 50, 64, 100])]).prop_map(|((depth, cell), nseg)| CellCase { depth, cell, nseg }).boxed()
 }
 
 fn strat_off() -> BoxedStrategy<OffCase> {
@@ -407,7 +407,7 @@ fn strat_bad() -> BoxedStrategy<Bad> {
 pub fn run(ctx: &Ctx, rep: &mut Report) {
   let maxd = ctx.tier.pick(6u8, 9u8);
   for d in 0..=maxd {
-    ctx.run_enum(rep, &format!("all_cells_d{}", d), lattice::n_hash(d), |h| CellCase { depth: d, cell: lattice::nested_decode(d, h), nseg: 1 + (h % 3) as u32 }, check_cell);
+    ctx.run_enum(rep, &format!("all_cells_d{}", d), lattice::n_hash(d), |h| CellCase { depth: d, cell: lattice::nested_decode(d, h), nseg: [1u32, 2, 3, 5, 6, 7, 12][(h % 7) as usize] }, check_cell);
   }
   let f = if ctx.profile == "release" { 1 } else { 4 };
   ctx.run_random(rep, "cells", strat_cell, ctx.tier.pick(150_000, 6_000_000) / f, check_cell);
